@@ -1,6 +1,6 @@
 (* Lemmas about Model/Voting.v (C17). *)
 From Coq Require Import List NArith ZArith QArith Qreduction Bool Arith Lia Permutation Sorted.
-From Similari Require Import Base.Num Model.Assign Model.Voting.
+From Similari Require Import Base.Num Model.Assign Model.Voting Proofs.AssignProofs Proofs.AssignPerm.
 Import ListNotations.
 
 Local Open Scope Q_scope.
@@ -947,4 +947,270 @@ Proof.
       apply N.eqb_eq in Qx, Qy.
       apply Hd; [eapply Permutation_in; [apply sort_desc_perm | exact Hx] | eapply Permutation_in; [apply sort_desc_perm | exact Hy] | left; congruence | exact Hw]. }
   rewrite Ef. apply map_ext. intro c. unfold relabel. rewrite (heavier_claim_perm C C' c Hc). reflexivity.
+Qed.
+
+(* ============================================================================================== *)
+(* VisualVoting *)
+Local Close Scope Q_scope.
+
+(* --- canonical form of a map ------------------------------------------------------------------- *)
+Section CanonK.
+  Context {V : Type}.
+  Definition le_key (a b : N * V) : Prop := (fst a <= fst b)%N.
+
+  Lemma insert_k_perm (e : N * V) l : Permutation (insert_k e l) (e :: l).
+  Proof.
+    induction l as [|x l IH]; cbn [insert_k]; [reflexivity|]. destruct (fst e <=? fst x)%N; [reflexivity|].
+    eapply perm_trans; [apply perm_skip, IH | apply perm_swap].
+  Qed.
+
+  Lemma canon_k_perm (l : list (N * V)) : Permutation (canon_k l) l.
+  Proof.
+    induction l as [|e l IH]; cbn [canon_k fold_right]; [constructor|]. fold (canon_k l).
+    eapply perm_trans; [apply insert_k_perm | apply perm_skip, IH].
+  Qed.
+
+  Lemma insert_k_sorted (e : N * V) l : StronglySorted le_key l -> StronglySorted le_key (insert_k e l).
+  Proof.
+    induction l as [|x l IH]; cbn [insert_k]; intro Hs; [repeat constructor|].
+    apply StronglySorted_inv in Hs. destruct Hs as [Hs Hx]. destruct (N.leb_spec (fst e) (fst x)) as [Hle|Hgt].
+    - constructor; [constructor; assumption|]. constructor; [exact Hle|].
+      rewrite Forall_forall in *. intros y Hy. unfold le_key in *. specialize (Hx y Hy). lia.
+    - constructor; [apply IH, Hs|]. apply Forall_forall. intros y Hy.
+      apply (Permutation_in _ (insert_k_perm e l)) in Hy. destruct Hy as [Hy|Hy]; [subst; unfold le_key; lia|].
+      rewrite Forall_forall in Hx. apply Hx, Hy.
+  Qed.
+
+  Lemma canon_k_sorted (l : list (N * V)) : StronglySorted le_key (canon_k l).
+  Proof. induction l as [|e l IH]; cbn [canon_k fold_right]; [constructor | apply insert_k_sorted, IH]. Qed.
+
+  Lemma sorted_key_unique (l1 : list (N * V)) : forall l2,
+    Permutation l1 l2 -> StronglySorted le_key l1 -> StronglySorted le_key l2 -> NoDup (map fst l1) -> l1 = l2.
+  Proof.
+    induction l1 as [|a r1 IH]; intros l2 Hp H1 H2 Hnd.
+    - apply Permutation_nil in Hp. subst. reflexivity.
+    - destruct l2 as [|b r2]; [apply Permutation_sym, Permutation_nil in Hp; discriminate|].
+      apply StronglySorted_inv in H1. destruct H1 as [H1 Ha]. apply StronglySorted_inv in H2. destruct H2 as [H2 Hb].
+      rewrite Forall_forall in Ha, Hb.
+      assert (a = b) as Eab.
+      { assert (In a (b :: r2)) as Ia by (apply (Permutation_in _ Hp); left; reflexivity).
+        assert (In b (a :: r1)) as Ib by (apply (Permutation_in _ (Permutation_sym Hp)); left; reflexivity).
+        destruct Ia as [Ia|Ia]; [congruence|]. destruct Ib as [Ib|Ib]; [congruence|].
+        specialize (Hb _ Ia). specialize (Ha _ Ib). unfold le_key in *.
+        assert (fst a = fst b) as Ef by lia.
+        destruct a as [a1 a2], b as [b1 b2]. cbn [fst] in Ef. subst b1. f_equal.
+        eapply (NoDup_map_fst_unique ((a1, a2) :: r1)); [exact Hnd | left; reflexivity | right; exact Ib]. }
+      subst b. f_equal. apply IH; try assumption.
+      + eapply Permutation_cons_inv, Hp.
+      + cbn [map] in Hnd. inversion Hnd; assumption.
+  Qed.
+
+  Lemma canon_k_unique (l l' : list (N * V)) : NoDup (map fst l) -> Permutation l l' -> canon_k l = canon_k l'.
+  Proof.
+    intros Hnd Hp. apply sorted_key_unique.
+    - eapply perm_trans; [apply canon_k_perm|]. eapply perm_trans; [exact Hp | apply Permutation_sym, canon_k_perm].
+    - apply canon_k_sorted.
+    - apply canon_k_sorted.
+    - eapply Permutation_NoDup; [apply Permutation_map, Permutation_sym, canon_k_perm | exact Hnd].
+  Qed.
+End CanonK.
+
+(* --- the visual stage --------------------------------------------------------------------------- *)
+Lemma assoc_In {W} (m : list (N * W)) k v : NoDup (map fst m) -> (In (k, v) m <-> assoc N.eqb k m = Some v).
+Proof.
+  unfold assoc. induction m as [|[a b] m IH]; cbn [map fst In find]; intro Hnd; [split; [intros [] | discriminate]|].
+  inversion Hnd as [|? ? Hn Hd]; subst. destruct (N.eqb_spec k a) as [E|E]; cbn [option_map snd].
+  - subst a. split.
+    + intros [H|H]; [inversion H; reflexivity|]. exfalso. apply Hn. apply in_map_iff. exists (k, v). split; [reflexivity | exact H].
+    + intro H. inversion H. left. reflexivity.
+  - rewrite <- (IH Hd). split; [intros [H|H]; [inversion H; congruence | exact H] | intro H; right; exact H].
+Qed.
+
+Definition vhead (g : N * list (N * Q)) : list (N * N) :=
+  match snd g with [] => [] | e :: _ => [(fst g, fst e)] end.
+
+Lemma vis_feature_In maxd minv s q t :
+  In (q, t) (vis_feature maxd minv s) <->
+  exists w r, In (q, (t, w) :: r) (best_fit_voting maxd minv (map vd_dist s)).
+Proof.
+  unfold vis_feature. rewrite in_flat_map. split.
+  - intros [[q' l] [Hin H]]. cbn [snd fst] in H. destruct l as [|[t' w] r]; [contradiction|].
+    destruct H as [H|[]]. inversion H; subst. exists w, r. exact Hin.
+  - intros [w [r Hin]]. exists (q, (t, w) :: r). split; [exact Hin | left; reflexivity].
+Qed.
+
+Lemma heads_fst_NoDup (BF : list (N * list (N * Q))) :
+  NoDup (map fst BF) -> NoDup (map fst (flat_map vhead BF)).
+Proof.
+  induction BF as [|[q l] BF IH]; cbn [map fst flat_map]; intro Hnd; [constructor|].
+  inversion Hnd as [|? ? Hn Hd]; subst. unfold vhead at 1. cbn [snd fst]. destruct l as [|e r]; cbn [app]; [apply IH, Hd|].
+  cbn [map fst]. constructor; [|apply IH, Hd].
+  intro Hin. apply Hn. apply in_map_iff in Hin. destruct Hin as [[q' t] [E Hin]]. cbn [fst] in E. subst q'.
+  apply in_flat_map in Hin. destruct Hin as [[q' l'] [Hin H]]. unfold vhead in H. cbn [snd fst] in H.
+  destruct l'; [contradiction|]. destruct H as [H|[]]. inversion H; subst. apply in_map_iff. exists (q, p :: l'). split; [reflexivity | exact Hin].
+Qed.
+
+Lemma bestfit_keys_NoDup maxd minv s : NoDup (map fst (best_fit_voting maxd minv s)).
+Proof. unfold best_fit_voting, by_query. apply (group_map_NoDup N.eqb Neqb_spec). Qed.
+
+Lemma vis_feature_fst_NoDup maxd minv s : NoDup (map fst (vis_feature maxd minv s)).
+Proof. apply heads_fst_NoDup, bestfit_keys_NoDup. Qed.
+
+Lemma vis_feature_perm maxd minv s s' :
+  Permutation s s' -> bestfit_distinct_cmp maxd minv (map vd_dist s) ->
+  Permutation (vis_feature maxd minv s) (vis_feature maxd minv s').
+Proof.
+  intros Hp Hd.
+  assert (forall q l, In (q, l) (best_fit_voting maxd minv (map vd_dist s)) <-> In (q, l) (best_fit_voting maxd minv (map vd_dist s'))) as Hiff.
+  { intros q l. rewrite !(assoc_In _ _ _ (bestfit_keys_NoDup _ _ _)).
+    rewrite (bestfit_perm_invariant_cmp_lemma maxd minv _ _ (Permutation_map vd_dist Hp) Hd q). reflexivity. }
+  apply NoDup_Permutation.
+  - eapply NoDup_map_inv, vis_feature_fst_NoDup.
+  - eapply NoDup_map_inv, vis_feature_fst_NoDup.
+  - intros [q t]. rewrite !vis_feature_In. split; intros [w [r H]]; exists w, r; apply Hiff; exact H.
+Qed.
+
+Lemma memN_perm x l l' : Permutation l l' -> memN x l = memN x l'.
+Proof.
+  intro Hp. unfold memN. apply (existsb_perm N.eqb). intro y. split; apply Permutation_in; [exact Hp | apply Permutation_sym, Hp].
+Qed.
+
+Lemma memN_In x l : memN x l = true <-> In x l.
+Proof. unfold memN. apply existsb_Neqb. Qed.
+
+Lemma vis_rem_perm maxd minv s s' :
+  Permutation s s' -> bestfit_distinct_cmp maxd minv (map vd_dist s) ->
+  Permutation (vis_rem maxd minv s) (vis_rem maxd minv s').
+Proof.
+  intros Hp Hd. pose proof (vis_feature_perm maxd minv s s' Hp Hd) as Hf. unfold vis_rem, vis_remaining.
+  rewrite (flat_map_ext _ (fun e => match v_w e with
+                     | Some z => if negb (memN (v_from e) (map fst (vis_feature maxd minv s')) || memN (v_to e) (map snd (vis_feature maxd minv s')))
+                                 then [(v_from e, v_to e, z)] else []
+                     | None => []
+                     end)).
+  - apply Permutation_flat_map, Hp.
+  - intro e. rewrite (memN_perm _ _ _ (Permutation_map fst Hf)), (memN_perm _ _ _ (Permutation_map snd Hf)). reflexivity.
+Qed.
+
+Lemma vis_rem_not_claimant maxd minv s p :
+  In p (vis_rem maxd minv s) ->
+  ~ In (p_from p) (map fst (vis_feature maxd minv s)) /\ ~ In (p_to p) (map snd (vis_feature maxd minv s)).
+Proof.
+  unfold vis_rem, vis_remaining. rewrite in_flat_map. intros [e [_ H]].
+  destruct (v_w e) as [z|]; [|contradiction].
+  destruct (memN (v_from e) _) eqn:E1; cbn [orb negb] in H; [contradiction|].
+  destruct (memN (v_to e) _) eqn:E2; cbn [negb] in H; [contradiction|].
+  destruct H as [H|[]]. subst p. unfold p_from, p_to. cbn [fst snd].
+  split; intro Hin; apply memN_In in Hin; congruence.
+Qed.
+
+Lemma NoDup_app_disjoint {A} (l1 l2 : list A) :
+  NoDup l1 -> NoDup l2 -> (forall x, In x l1 -> In x l2 -> False) -> NoDup (l1 ++ l2).
+Proof.
+  induction l1 as [|a l1 IH]; intros H1 H2 Hd; cbn [app]; [exact H2|].
+  inversion H1 as [|? ? Hn Hd1]; subst. constructor.
+  - rewrite in_app_iff. intros [H|H]; [contradiction | apply (Hd a); [left; reflexivity | exact H]].
+  - apply IH; [exact Hd1 | exact H2 | intros x Hx; apply Hd; right; exact Hx].
+Qed.
+
+(* --- the composition ----------------------------------------------------------------------------- *)
+Definition vis_tie_free (thr : Z) (maxd : Q) (minv : nat) (s : list vd) : Prop :=
+  bestfit_distinct_cmp maxd minv (map vd_dist s) /\ hung_tie_free thr (vis_rem maxd minv s).
+
+Lemma visual_raw_keys km thr maxd minv s R :
+  (0 < thr)%Z -> km_ok km -> hung_tie_free thr (vis_rem maxd minv s) ->
+  visual_raw km thr maxd minv s = Some R -> NoDup (map fst R).
+Proof.
+  intros Hthr Hkm [Hpos [Hdisj [Hnd Huniq]]] HR. unfold visual_raw in HR.
+  set (rem := vis_rem maxd minv s) in *.
+  destruct (sort_winners km thr (length (froms rem)) (length (tos rem)) rem) as [pw|] eqn:Ew; [|discriminate].
+  inversion HR; subst R. clear HR.
+  assert (km_ok_on km thr (length (froms rem)) (length (tos rem)) rem) as K by (intros m idx; apply Hkm).
+  destruct (sort_winners_gated km thr _ _ rem pw Hthr Hdisj (le_n _) K Ew) as [[H1 _] _].
+  rewrite map_app, !map_map. cbn [fst]. apply NoDup_app_disjoint.
+  - apply vis_feature_fst_NoDup.
+  - change (map (fun x : N * N => fst x) pw) with (map fst pw). rewrite H1. apply froms_NoDup.
+  - intros x Hx Hy. change (map (fun x : N * N => fst x) pw) with (map fst pw) in Hy. rewrite H1 in Hy.
+    apply froms_In in Hy. destruct Hy as [p [Hp E]]. subst x.
+    destruct (vis_rem_not_claimant maxd minv s p Hp) as [Hn _]. apply Hn. exact Hx.
+Qed.
+
+Lemma visual_winners_perm_invariant_lemma km thr maxd minv :
+  (0 < thr)%Z -> km_ok km ->
+  forall s1 s2, Permutation s1 s2 -> vis_tie_free thr maxd minv s1 ->
+    visual_winners km thr maxd minv s1 = visual_winners km thr maxd minv s2.
+Proof.
+  intros Hthr Hkm s1 s2 Hp [Hbf Htf]. pose proof Htf as [Hpos [Hdisj [Hnd Huniq]]].
+  pose proof (vis_rem_perm maxd minv s1 s2 Hp Hbf) as Hrem.
+  pose proof (vis_feature_perm maxd minv s1 s2 Hp Hbf) as Hfw.
+  unfold visual_winners.
+  destruct (visual_raw km thr maxd minv s1) as [R1|] eqn:E1.
+  2:{ exfalso. unfold visual_raw in E1. set (rem := vis_rem maxd minv s1) in *.
+      assert (km_ok_on km thr (length (froms rem)) (length (tos rem)) rem) as K by (intros m idx; apply Hkm).
+      destruct (sort_winners_succeeds km thr _ _ rem Hthr Hpos Hdisj (le_n _) (le_n _) K) as [W R]. rewrite R in E1. discriminate. }
+  pose proof (visual_raw_keys km thr maxd minv s1 R1 Hthr Hkm Htf E1) as Hkeys.
+  unfold visual_raw in *. set (rem1 := vis_rem maxd minv s1) in *. set (rem2 := vis_rem maxd minv s2) in *.
+  assert (km_ok_on km thr (length (froms rem1)) (length (tos rem1)) rem1) as K1 by (intros m idx; apply Hkm).
+  assert (km_ok_on km thr (length (froms rem2)) (length (tos rem2)) rem2) as K2 by (intros m idx; apply Hkm).
+  destruct (sort_winners km thr (length (froms rem1)) (length (tos rem1)) rem1) as [pw1|] eqn:Ew1; [|discriminate].
+  destruct (sort_winners_succeeds km thr _ _ rem2 Hthr (ids_pos_perm _ _ Hrem Hpos) (ids_disj_perm _ _ Hrem Hdisj) (le_n _) (le_n _) K2) as [pw2 Ew2].
+  rewrite Ew2. inversion E1; subst R1. cbn [option_map]. f_equal.
+  destruct (hungarian_perm_invariant_lemma km km thr _ _ _ _ rem1 rem2 pw1 pw2 Hthr Hrem Hnd Hdisj (le_n _)
+              ltac:(rewrite (tos_length_perm _ _ Hrem); apply le_n) Huniq K1 K2 Ew1 Ew2) as [HP _].
+  apply canon_k_unique; [exact Hkeys|].
+  apply Permutation_app; apply Permutation_map; assumption.
+Qed.
+
+(* --- structure ------------------------------------------------------------------------------------ *)
+Lemma visual_award_is_heaviest_lemma maxd minv s q t :
+  ids_disjoint (map vd_dist s) -> In (q, t) (vis_feature maxd minv s) -> t <> q ->
+  exists w, In (q, t, w) (cands maxd minv (map vd_dist s)) /\
+            (forall q' w', In (q', t, w') (cands maxd minv (map vd_dist s)) -> (w' <= w)%Q) /\
+            (forall t' w', In (q, t', w') (cands maxd minv (map vd_dist s)) -> (w' <= w)%Q).
+Proof.
+  intros Hd Hin Hne. apply vis_feature_In in Hin. destruct Hin as [w [r Hin]]. exists w.
+  destruct (bestfit_winner_is_max_lemma maxd minv _ q _ t w Hd Hin (or_introl eq_refl) Hne) as [Hc Hmax].
+  split; [exact Hc|]. split; [exact Hmax|].
+  (* the head of the query's list is its heaviest entry, and every claim of the query is an entry *)
+  intros t' w' Hc'.
+  destruct (bestfit_every_candidate_answered_lemma maxd minv _ q t' w' Hc') as [l [Hl Hor]].
+  assert (l = (t, w) :: r) as El.
+  { pose proof (bestfit_keys_NoDup maxd minv (map vd_dist s)) as Hk.
+    apply (assoc_In _ _ _ Hk) in Hl. apply (assoc_In _ _ _ Hk) in Hin. congruence. }
+  subst l. pose proof (bestfit_sorted_lemma maxd minv _ q _ Hin) as Hs.
+  apply StronglySorted_inv in Hs. destruct Hs as [_ Hall]. rewrite Forall_forall in Hall.
+  destruct Hor as [[H|H]|[H|H]]; try (inversion H; apply Qle_refl); apply (Hall _ H).
+Qed.
+
+Lemma visual_claimant_has_entry_lemma maxd minv s q t w :
+  In (q, t, w) (cands maxd minv (map vd_dist s)) -> exists t', In (q, t') (vis_feature maxd minv s).
+Proof.
+  intro Hc. destruct (bestfit_every_candidate_answered_lemma maxd minv _ q t w Hc) as [l [Hl Hor]].
+  destruct l as [|[t' w'] r]; [destruct Hor as [[]|[]]|]. exists t'. apply vis_feature_In. exists w', r. exact Hl.
+Qed.
+
+Lemma visual_raw_shape_lemma km thr maxd minv s R :
+  (0 < thr)%Z -> km_ok km -> hung_tie_free thr (vis_rem maxd minv s) ->
+  visual_raw km thr maxd minv s = Some R ->
+  NoDup (map fst R) /\
+  (forall q t, In (q, (t, Visual)) R <-> In (q, t) (vis_feature maxd minv s)) /\
+  (forall q, In q (froms (vis_rem maxd minv s)) -> exists t, In (q, (t, Positional)) R) /\
+  (forall q t, In (q, (t, Positional)) R -> In q (froms (vis_rem maxd minv s)) /\ ~ In q (map fst (vis_feature maxd minv s))).
+Proof.
+  intros Hthr Hkm Htf HR. split; [eapply visual_raw_keys; eassumption|].
+  destruct Htf as [Hpos [Hdisj [Hnd Huniq]]]. unfold visual_raw in HR. set (rem := vis_rem maxd minv s) in *.
+  destruct (sort_winners km thr (length (froms rem)) (length (tos rem)) rem) as [pw|] eqn:Ew; [|discriminate].
+  inversion HR; subst R. clear HR.
+  assert (km_ok_on km thr (length (froms rem)) (length (tos rem)) rem) as K by (intros m idx; apply Hkm).
+  destruct (sort_winners_gated km thr _ _ rem pw Hthr Hdisj (le_n _) K Ew) as [[H1 _] _].
+  split; [|split].
+  - intros q t. rewrite in_app_iff, !in_map_iff. split.
+    + intros [[[q' t'] [E H]]|[[q' t'] [E H]]]; inversion E; subst; exact H.
+    + intro H. left. exists (q, t). split; [reflexivity | exact H].
+  - intros q Hq. rewrite <- H1 in Hq. apply in_map_iff in Hq. destruct Hq as [[q' t] [E H]]. cbn [fst] in E. subst q'.
+    exists t. apply in_or_app. right. apply in_map_iff. exists (q, t). split; [reflexivity | exact H].
+  - intros q t H. apply in_app_or in H. destruct H as [H|H]; apply in_map_iff in H; destruct H as [[q' t'] [E H]]; inversion E; subst.
+    assert (In q (froms rem)) as Hq by (rewrite <- H1; apply in_map_iff; exists (q, t); split; [reflexivity | exact H]).
+    split; [exact Hq|]. apply froms_In in Hq. destruct Hq as [p [Hp Ep]]. subst q.
+    apply (vis_rem_not_claimant maxd minv s p Hp).
 Qed.
